@@ -54,6 +54,15 @@ CHECKS["C10"] = dict(cat="fault_enumeration", engine="RetainFile", ref="§5 C10"
          "round trips over all retainable value shapes and structured corruptions of the STRN image (Ok/Err only, 1 GiB address-space limit) "
          "are validated by the same trace specification.",
     note="crash = SIGKILL at libc call boundaries; power loss decided on the model only; arbitrary-bytes totality is sampled")
+CHECKS["C17"] = dict(cat="model_checking", engine="DebugControl", ref="§5 C17",
+    tech="TLA+ DebugControl spec: all interleavings + liveness model-checked with TLC; two-thread runs of the real DebugControl/Runtime trace-validated by TLC from the runtime's own mutex-ordered trace lines",
+    text="TLC explores every interleaving of adapter commands (pause/continue/step-in/over/out per thread, set breakpoints) with the "
+         "cycle thread's hook steps (enter / wait / wake) for small programs and checks OneStopPerPause, StopHasLocation, StepDepth, "
+         "StepInNext, Transparent and, under weak fairness of the cycle thread, NoWedge. Hundreds of real two-thread runs (scripted hook "
+         "lists and a real ST program with nested calls, a loop, two tasks and a background program run by Runtime::execute_cycle) are "
+         "recorded through the runtime's ST_DEBUG_TRACE lines, which are emitted under the DebugState mutex, and TLC must find a behaviour of "
+         "the specification that explains every event; the final variables must equal an undebugged run's.",
+    note="OS-chosen schedules plus seeded delays/bursts, not exhaustive on the code; unlogged choices (breakpoint set, set_current_thread time) inferred by TLC; DAP adapter layer not covered")
 NOT_YET = "check not built yet in this round (see DESIGN.md build order); no claim made"
 
 
@@ -87,6 +96,8 @@ def main():
             "add_only": True,
         },
         "engines": [
+            {"name": "DebugControl", "path": "spec/DebugControl.tla", "serves_properties": ["C17"],
+             "kind_free_text": "TLA+ module + MC instance (safety + liveness) + nondeterministic trace refinement; harness sub-command debug-run"},
             {"name": "RetainFile", "path": "spec/RetainFile.tla", "serves_properties": ["C10"],
              "kind_free_text": "TLA+ module + MC instance + trace refinement; LD_PRELOAD crash shim; harness sub-commands retain-run / retain-child"},
             {"name": "StdFb", "path": "spec/StdFb.tla", "serves_properties": ["C04"],
